@@ -58,7 +58,13 @@ MANIFEST = {
             "(any number of threads; atomic steps = flag checks, mutex, deadline critical sections, selects): "
             "C17_old_channels_closed, C17_no_lost_wakeup_expiry and C17_no_lost_wakeup (in every reachable state "
             "after Close's cancel, every thread blocked in Recv/Send has an enabled step, whatever SetDeadline/"
-            "Cancel calls are in flight), C17_closed_deadline_final. (3) The lifecycle elections of "
+            "Cancel calls are in flight), C17_closed_deadline_final. (2b) The timer generations of common.Deadline (Model/DeadlineGen: SetDeadline counts every call, a timer "
+            "callback carries the number of the call that armed it and is a no-op for any other number): "
+            "C17_deadline_expiry_is_current and C17_cleared_deadline_never_expires over ALL histories of calls and "
+            "late callbacks of stopped timers; the order of statements this rests on (the count before every return "
+            "but the `final` one, the callback's number taken after the count, timeoutFor's first check) is an "
+            "obligation on the statement shapes of SetDeadline / timeoutFor that the translator REGENERATES from "
+            "common/sync.go on every run (Generated/Shapes.lean). (3) The lifecycle elections of "
             "transport.Client (Server.Close has the same shape): C17_handshake_once, C17_close_elected_once, "
             "C17_close_same_result (all returned Close calls returned the one published result), "
             "C17_close_waiter_released. Ties: exact sequential differential run of the real queue against QSpec; "
